@@ -3,6 +3,7 @@ import PoaVerif.Facts
 import PoaVerif.Lemmas.Corollaries
 import PoaVerif.Lemmas.Quiet
 import PoaVerif.Lemmas.Quiet2.Effect
+import PoaVerif.Lemmas.Quiet2.Gov
 /-
   C18 — queries report exactly the committed PoA state.
 -/
@@ -107,6 +108,24 @@ theorem c18_history_removals_partial (g : Genesis) (hw : g.wf = true) (bs : List
           ((Unb v ∨ Jl v) ∧ st.app.queryPower (some v.op) = some 0 ∧ alookup v.key st.comet = none)) ∧
         (∀ k p, alookup k st.comet = some p → ∃ v ∈ st.app.vals, v.key = k ∧ Active v) := by
   obtain ⟨first, steps, h1, _, _, hg, h5⟩ := quiet_history2 g hw bs hq
+  refine ⟨first, steps, h1, ?_⟩
+  intro st hst
+  rcases List.mem_cons.mp hst with e | e
+  · rw [e]; exact G2_views _ _ hg
+  · exact G2_views _ _ (h5 st e).2
+
+/-- **C18 when the admin's operations arrive through governance** (`QuietHistory3`, see `Props.C02.c02_governance`): the
+    three views — records, power query, CometBFT — agree after InitChain and after every block, as in
+    `c18_history_removals_partial` -/
+theorem c18_history_governance_partial (g : Genesis) (hw : g.wf = true) (bs : List Block) (hq : QuietHistory3 g bs) :
+    ∃ first steps, run genEnv g bs = some (first, steps, RunEnd.done) ∧
+      ∀ st ∈ first :: steps,
+        (∀ v ∈ st.app.vals,
+          (Active v ∧ st.app.queryPower (some v.op) = some ((powerOf v.tokens : Nat) : Int) ∧
+            alookup v.key st.comet = some ((powerOf v.tokens : Nat) : Int)) ∨
+          ((Unb v ∨ Jl v) ∧ st.app.queryPower (some v.op) = some 0 ∧ alookup v.key st.comet = none)) ∧
+        (∀ k p, alookup k st.comet = some p → ∃ v ∈ st.app.vals, v.key = k ∧ Active v) := by
+  obtain ⟨first, steps, h1, _, _, hg, h5⟩ := quiet_history3 g hw bs hq
   refine ⟨first, steps, h1, ?_⟩
   intro st hst
   rcases List.mem_cons.mp hst with e | e
